@@ -1,6 +1,765 @@
-//! C11 — not implemented yet.
+//! C11 — Split enumeration covers every row exactly once, canonically.
+//!
+//! Code under test: `query_engine::distributed::splits::enumerate_parquet` and
+//! `SplitSet::digest`.
+//!
+//! Generator: a row-group inventory (files x row groups x (rows, total_byte_size)) written as
+//! **footer-only** Parquet files ("PAR1" + a footer produced by `ParquetMetaDataWriter`), so
+//! byte sizes up to 2^40 are reachable, optionally mixed with real small Parquet files written
+//! by `ArrowWriter` (their inventory is read back with parquet's own `SerializedFileReader`).
+//! The same inventory is laid out twice under different directory trees, the file list is
+//! permuted, and a third copy differs in exactly one split-relevant attribute.
+//!
+//! Oracle:
+//!  * validity predicate over the SplitSet against the inventory (coverage per (path,row group):
+//!    contiguous from 0, no overlap, sums to the row count; sum of bytes = table bytes =
+//!    total_bytes; sum of rows = total_rows; canonical order; path/file consistent);
+//!  * metamorphic: permuting the list / moving the files leaves the sequence of
+//!    (file,row_group,offset,rows,bytes) and digest() unchanged;
+//!  * sensitivity: a one-attribute change that alters the split-relevant content changes digest().
 use super::Property;
+use crate::data::{pick_idx, ColType, Column, ParquetLayout, Table, TempDir, Value};
+use crate::runner::*;
+use proptest::prelude::*;
+use query_engine::distributed::splits::{enumerate_parquet, SplitSet};
+use serde::{Deserialize, Serialize};
+use std::collections::BTreeMap;
+use std::path::{Path, PathBuf};
+use std::sync::Arc;
+
+pub const KF_SAME_NAME: &str = "c11-same-file-name-order-dependent";
+
+// ---------------------------------------------------------------------------
+// footer-only parquet files
+// ---------------------------------------------------------------------------
+
+#[derive(Clone, Debug, Serialize, Deserialize, PartialEq, Eq)]
+pub struct Rg {
+    pub rows: i64,
+    pub bytes: i64,
+}
+
+/// Write a file that consists of the magic and a footer describing `rgs`.
+pub fn write_footer_only(path: &Path, rgs: &[Rg]) {
+    use parquet::basic::{Compression, Repetition, Type as PhysicalType};
+    use parquet::file::metadata::{
+        ColumnChunkMetaData, FileMetaData, ParquetMetaData, ParquetMetaDataWriter, RowGroupMetaData,
+    };
+    use parquet::schema::types::{SchemaDescriptor, Type as SchemaType};
+    let field = SchemaType::primitive_type_builder("id", PhysicalType::INT64)
+        .with_repetition(Repetition::REQUIRED)
+        .build()
+        .unwrap();
+    let schema = SchemaType::group_type_builder("schema")
+        .with_fields(vec![Arc::new(field)])
+        .build()
+        .unwrap();
+    let descr = Arc::new(SchemaDescriptor::new(Arc::new(schema)));
+    let mut row_groups = vec![];
+    for (i, rg) in rgs.iter().enumerate() {
+        let col = ColumnChunkMetaData::builder(descr.column(0))
+            .set_num_values(rg.rows)
+            .set_compression(Compression::UNCOMPRESSED)
+            .set_total_compressed_size(rg.bytes)
+            .set_total_uncompressed_size(rg.bytes)
+            .set_data_page_offset(4)
+            .build()
+            .unwrap();
+        row_groups.push(
+            RowGroupMetaData::builder(descr.clone())
+                .set_num_rows(rg.rows)
+                .set_total_byte_size(rg.bytes)
+                .set_column_metadata(vec![col])
+                .set_ordinal(i as i16)
+                .build()
+                .unwrap(),
+        );
+    }
+    let total: i64 = rgs.iter().map(|r| r.rows).sum();
+    let fmd = FileMetaData::new(1, total, Some("qe_verif footer-only".into()), None, descr, None);
+    let md = ParquetMetaData::new(fmd, row_groups);
+    let mut buf: Vec<u8> = b"PAR1".to_vec();
+    ParquetMetaDataWriter::new(&mut buf, &md).finish().unwrap();
+    if let Some(p) = path.parent() {
+        std::fs::create_dir_all(p).unwrap();
+    }
+    std::fs::write(path, buf).unwrap();
+}
+
+/// Row-group inventory of a real file, read with parquet's own reader (not the engine's cache).
+pub fn read_inventory(path: &Path) -> Vec<Rg> {
+    use parquet::file::reader::{FileReader, SerializedFileReader};
+    let r = SerializedFileReader::new(std::fs::File::open(path).unwrap()).unwrap();
+    r.metadata()
+        .row_groups()
+        .iter()
+        .map(|g| Rg { rows: g.num_rows(), bytes: g.total_byte_size() })
+        .collect()
+}
+
+// ---------------------------------------------------------------------------
+// case
+// ---------------------------------------------------------------------------
+
+#[derive(Clone, Debug, Serialize, Deserialize, PartialEq)]
+pub struct SynFile {
+    pub name: String,
+    pub rgs: Vec<Rg>,
+}
+
+#[derive(Clone, Debug, Serialize, Deserialize, PartialEq)]
+pub struct RealTable {
+    pub rows: usize,
+    pub file_cuts: Vec<usize>,
+    pub row_group_size: usize,
+    /// string payload width factor (controls bytes per row)
+    pub pad: u8,
+    pub dictionary: bool,
+}
+
+#[derive(Clone, Debug, Serialize, Deserialize, PartialEq)]
+pub enum Mutation {
+    /// rename a file that has a non-empty row group (to the front or back of the name order)
+    Rename { target: u16, front: bool },
+    /// change the row count of a non-empty row group by `delta` (result clamped to >= 0)
+    Rows { target: u16, delta: i64 },
+    /// change the byte size of a non-empty row group
+    Bytes { target: u16, new_bytes: i64 },
+    /// cut a non-empty row group (>=2 rows) into two row groups
+    SplitRg { target: u16, at: u16 },
+    /// insert an empty row group in front of a non-empty one
+    InsertEmpty { target: u16 },
+}
+
+#[derive(Clone, Debug, Serialize, Deserialize, PartialEq)]
+pub struct Dup {
+    /// which synthetic file's name is reused in another directory
+    pub of: u16,
+    pub rgs: Vec<Rg>,
+}
+
+#[derive(Clone, Debug, Serialize, Deserialize)]
+pub struct EnumCase {
+    pub nodes: usize,
+    pub files: Vec<SynFile>,
+    pub real: Option<RealTable>,
+    /// permutation selectors for the reordered file list
+    pub order: Vec<u16>,
+    /// directory of each file in layout A / layout B
+    pub dirs_a: Vec<u8>,
+    pub dirs_b: Vec<u8>,
+    pub mutation: Mutation,
+    pub dup: Option<Dup>,
+    pub class: String,
+}
+
+fn permutation(sel: &[u16], n: usize) -> Vec<usize> {
+    let mut pool: Vec<usize> = (0..n).collect();
+    let mut out = Vec::with_capacity(n);
+    for i in 0..n {
+        let k = pick_idx(sel.get(i).copied().unwrap_or(0), pool.len());
+        out.push(pool.remove(k));
+    }
+    out
+}
+
+const NAME_POOL: [&str; 20] = [
+    "a.parquet",
+    "B.parquet",
+    "b.parquet",
+    "data",
+    "lineitem.parquet",
+    "lineitem.1.parquet",
+    "lineitem-2.parquet",
+    "p-9.parquet",
+    "p-10.parquet",
+    "p-100.parquet",
+    "00000-0-data.parquet",
+    "00001-0-data.parquet",
+    "é.parquet",
+    "z.parquet",
+    "zz.parquet",
+    "x y.parquet",
+    "n.parq",
+    "_tmp.parquet",
+    "A.PARQUET",
+    "m.parquet",
+];
+
+fn rg_strategy(class: u8) -> BoxedStrategy<Rg> {
+    let (rows, bytes): (BoxedStrategy<i64>, BoxedStrategy<i64>) = match class {
+        0 => (
+            prop_oneof![1 => Just(0i64), 1 => Just(1i64), 3 => 2i64..20, 2 => 1i64..10_000].boxed(),
+            prop_oneof![1 => Just(0i64), 1 => Just(1i64), 6 => 0i64..5000].boxed(),
+        ),
+        1 => (
+            prop_oneof![1 => Just(0i64), 1 => Just(1i64), 3 => 2i64..2000, 2 => 1i64..=10_000_000].boxed(),
+            prop_oneof![1 => Just(0i64), 3 => 0i64..(1 << 20), 4 => 0i64..(1 << 30)].boxed(),
+        ),
+        _ => (
+            prop_oneof![1 => Just(0i64), 1 => Just(1i64), 2 => 2i64..100, 2 => 1i64..=10_000_000, 1 => Just(10_000_000i64)].boxed(),
+            prop_oneof![
+                1 => Just(0i64),
+                2 => 0i64..(1 << 28),
+                3 => 0i64..=(1i64 << 40),
+                1 => Just(1i64 << 40),
+                1 => prop_oneof![Just((1i64 << 26) - 1), Just(1i64 << 26), Just((1i64 << 26) + 1), Just(1i64 << 22), Just((1i64 << 22) + 1)],
+            ]
+            .boxed(),
+        ),
+    };
+    (rows, bytes, 0u8..5)
+        .prop_map(|(rows, bytes, keep)| Rg {
+            rows,
+            // an empty row group normally has no bytes; sometimes keep them
+            bytes: if rows == 0 && keep != 0 { 0 } else { bytes },
+        })
+        .boxed()
+}
+
+fn mutation_strategy() -> BoxedStrategy<Mutation> {
+    prop_oneof![
+        (any::<u16>(), any::<bool>()).prop_map(|(target, front)| Mutation::Rename { target, front }),
+        (any::<u16>(), prop_oneof![Just(-1i64), Just(1i64), -1000i64..1000]).prop_map(|(target, delta)| Mutation::Rows { target, delta }),
+        (any::<u16>(), prop_oneof![0i64..5000, 0i64..=(1i64 << 40)]).prop_map(|(target, new_bytes)| Mutation::Bytes { target, new_bytes }),
+        (any::<u16>(), any::<u16>()).prop_map(|(target, at)| Mutation::SplitRg { target, at }),
+        any::<u16>().prop_map(|target| Mutation::InsertEmpty { target }),
+    ]
+    .boxed()
+}
+
+fn case_strategy(tier: Tier) -> BoxedStrategy<EnumCase> {
+    let thorough = tier == Tier::Thorough;
+    // class 0 tiny, 1 medium, 2 huge (few row groups, sizes to 2^40)
+    prop_oneof![4 => Just(0u8), 3 => Just(1u8), 2 => Just(2u8)]
+        .prop_flat_map(move |class| {
+            let (max_files, max_rgs) = match class {
+                2 => (4usize, 3usize),
+                _ => (if thorough { 12 } else { 8 }, 10usize),
+            };
+            let names = prop_oneof![1 => proptest::sample::subsequence(NAME_POOL.to_vec(), 0..=1), 12 => proptest::sample::subsequence(NAME_POOL.to_vec(), 2..=max_files)].prop_shuffle();
+            let real = if class == 0 {
+                prop_oneof![
+                    2 => Just(None),
+                    1 => (0usize..60, proptest::collection::vec(0usize..60, 0..3), prop_oneof![Just(1usize), Just(3), Just(7), Just(16), Just(1000)], 0u8..40, any::<bool>())
+                        .prop_map(|(rows, file_cuts, row_group_size, pad, dictionary)| Some(RealTable { rows, file_cuts, row_group_size, pad, dictionary })),
+                ]
+                .boxed()
+            } else {
+                Just(None).boxed()
+            };
+            (
+                names,
+                proptest::collection::vec(prop_oneof![1 => proptest::collection::vec(rg_strategy(class), 0..=0), 9 => proptest::collection::vec(rg_strategy(class), 1..=max_rgs)], max_files),
+                real,
+                prop_oneof![3 => 1usize..=8, 1 => 1usize..=64],
+                proptest::collection::vec(any::<u16>(), 20),
+                proptest::collection::vec(0u8..3, 20),
+                proptest::collection::vec(0u8..3, 20),
+                mutation_strategy(),
+                prop_oneof![
+                    12 => Just(None),
+                    1 => (any::<u16>(), proptest::collection::vec(rg_strategy(class), 1..=3)).prop_map(|(of, rgs)| Some(Dup { of, rgs })),
+                ],
+            )
+                .prop_map(move |(names, rgs, real, nodes, order, dirs_a, dirs_b, mutation, dup)| {
+                    let files: Vec<SynFile> = names
+                        .into_iter()
+                        .zip(rgs)
+                        .map(|(n, rgs)| SynFile { name: n.to_string(), rgs })
+                        .collect();
+                    let dup = if files.is_empty() { None } else { dup };
+                    EnumCase {
+                        nodes,
+                        files,
+                        real,
+                        order,
+                        dirs_a,
+                        dirs_b,
+                        mutation,
+                        dup,
+                        class: ["tiny", "medium", "huge"][class as usize].to_string(),
+                    }
+                })
+        })
+        .boxed()
+}
+
+// ---------------------------------------------------------------------------
+// oracle
+// ---------------------------------------------------------------------------
+
+type Seq = Vec<(String, usize, i64, i64, u64)>;
+
+fn seq_of(set: &SplitSet) -> Seq {
+    set.splits
+        .iter()
+        .map(|s| (s.file.clone(), s.row_group, s.row_offset, s.num_rows, s.bytes))
+        .collect()
+}
+
+fn file_name(p: &Path) -> String {
+    p.file_name().unwrap().to_string_lossy().into_owned()
+}
+
+/// Validity of `set` against `inv` (path -> row groups). Returns (max pieces of one row group).
+fn validate(table: &str, set: &SplitSet, inv: &BTreeMap<PathBuf, Vec<Rg>>, unique_names: bool) -> Result<usize, String> {
+    if set.table != table {
+        return Err(format!("SplitSet.table = {:?}, asked for {:?}", set.table, table));
+    }
+    let paths: Vec<&PathBuf> = inv.keys().collect();
+    let mut by_rg: Vec<Vec<Vec<(i64, i64)>>> = inv.values().map(|rgs| vec![Vec::new(); rgs.len()]).collect();
+    let mut bytes_sum: u128 = 0;
+    let mut rows_sum: i128 = 0;
+    let mut last: Option<(usize, &PathBuf)> = None;
+    for (i, s) in set.splits.iter().enumerate() {
+        if s.table != table {
+            return Err(format!("split {} has table {:?}", i, s.table));
+        }
+        let fi = match last {
+            Some((fi, p)) if *p == s.path => fi,
+            _ => match paths.binary_search(&&s.path) {
+                Ok(fi) => fi,
+                Err(_) => {
+                    return Err(format!("split {} reads from {} which is not one of the table's files", i, s.path.display()));
+                }
+            },
+        };
+        last = Some((fi, paths[fi]));
+        // the canonical identity must be the file's name (a trailing part of its path)
+        if s.file.is_empty() || !s.path.ends_with(&s.file) {
+            return Err(format!("split {}: canonical file {:?} is not the trailing part of its path {}", i, s.file, s.path.display()));
+        }
+        if s.row_group >= by_rg[fi].len() {
+            return Err(format!("split {}: row group {} of {} which has {} row groups", i, s.row_group, s.file, by_rg[fi].len()));
+        }
+        if s.num_rows < 0 || s.row_offset < 0 {
+            return Err(format!("split {}: negative range offset={} rows={}", i, s.row_offset, s.num_rows));
+        }
+        by_rg[fi][s.row_group].push((s.row_offset, s.num_rows));
+        bytes_sum += s.bytes as u128;
+        rows_sum += s.num_rows as i128;
+    }
+    // coverage: every row of every row group exactly once, contiguous
+    let mut max_pieces = 0usize;
+    for (fi, (path, rgs)) in inv.iter().enumerate() {
+        for (k, rg) in rgs.iter().enumerate() {
+            let mut ranges = std::mem::take(&mut by_rg[fi][k]);
+            ranges.sort();
+            max_pieces = max_pieces.max(ranges.len());
+            let mut next = 0i64;
+            for (off, n) in &ranges {
+                if *off != next {
+                    return Err(format!(
+                        "{}[{}] ({} rows): rows {}..{} are {} (ranges {:?})",
+                        file_name(path),
+                        k,
+                        rg.rows,
+                        next.min(*off),
+                        next.max(*off),
+                        if *off > next { "covered by no split" } else { "covered twice" },
+                        &ranges[..ranges.len().min(8)]
+                    ));
+                }
+                next += n;
+            }
+            if next != rg.rows.max(0) {
+                return Err(format!(
+                    "{}[{}] has {} rows but its splits cover 0..{} (ranges {:?})",
+                    file_name(path),
+                    k,
+                    rg.rows,
+                    next,
+                    &ranges[..ranges.len().min(8)]
+                ));
+            }
+        }
+    }
+    // sums
+    let want_rows: i128 = inv.values().flatten().map(|r| r.rows.max(0) as i128).sum();
+    let want_bytes_nonempty: u128 = inv.values().flatten().filter(|r| r.rows > 0).map(|r| r.bytes.max(0) as u128).sum();
+    let want_bytes_all: u128 = inv.values().flatten().map(|r| r.bytes.max(0) as u128).sum();
+    if rows_sum != want_rows || set.total_rows as i128 != want_rows {
+        return Err(format!("rows: splits sum to {}, total_rows = {}, the row groups hold {}", rows_sum, set.total_rows, want_rows));
+    }
+    if bytes_sum != set.total_bytes as u128 {
+        return Err(format!("bytes: splits sum to {} but total_bytes = {}", bytes_sum, set.total_bytes));
+    }
+    if bytes_sum != want_bytes_nonempty && bytes_sum != want_bytes_all {
+        return Err(format!(
+            "bytes: splits sum to {} but the table's non-empty row groups hold {} bytes",
+            bytes_sum, want_bytes_nonempty
+        ));
+    }
+    // canonical order
+    for w in set.splits.windows(2) {
+        let a = (&w[0].file, w[0].row_group, w[0].row_offset);
+        let b = (&w[1].file, w[1].row_group, w[1].row_offset);
+        if a > b || (unique_names && a == b) {
+            return Err(format!("splits not in canonical (file,row_group,offset) order: {:?} before {:?}", a, b));
+        }
+    }
+    Ok(max_pieces)
+}
+
+fn describe_diff(a: &SplitSet, b: &SplitSet) -> String {
+    let (sa, sb) = (seq_of(a), seq_of(b));
+    let first = sa.iter().zip(sb.iter()).position(|(x, y)| x != y);
+    format!(
+        "{} vs {} splits, digest {:#x} vs {:#x}, total_bytes {} vs {}, first difference at #{:?}: {:?} vs {:?}",
+        sa.len(),
+        sb.len(),
+        a.digest(),
+        b.digest(),
+        a.total_bytes,
+        b.total_bytes,
+        first,
+        first.map(|i| &sa[i]),
+        first.map(|i| &sb[i])
+    )
+}
+
+fn seq_eq(a: &SplitSet, b: &SplitSet) -> bool {
+    a.splits.len() == b.splits.len()
+        && a.splits.iter().zip(b.splits.iter()).all(|(x, y)| {
+            x.file == y.file && x.row_group == y.row_group && x.row_offset == y.row_offset && x.num_rows == y.num_rows && x.bytes == y.bytes
+        })
+}
+
+fn same_enumeration(a: &SplitSet, b: &SplitSet) -> bool {
+    seq_eq(a, b)
+        && a.digest() == b.digest()
+        && a.total_bytes == b.total_bytes
+        && a.total_rows == b.total_rows
+        && a.target_split_bytes == b.target_split_bytes
+        && a.table == b.table
+}
+
+/// One laid-out copy of the table.
+struct Layout {
+    /// file list in case order
+    list: Vec<PathBuf>,
+    inv: BTreeMap<PathBuf, Vec<Rg>>,
+}
+
+fn real_table(rt: &RealTable) -> Table {
+    let rows = (0..rt.rows)
+        .map(|i| {
+            let w = if rt.pad == 0 { 0 } else { (i * 7 + 3) % (rt.pad as usize + 1) };
+            vec![Value::Int(i as i64), Value::Str("v".repeat(w)), Value::Int((i % 3) as i64)]
+        })
+        .collect();
+    Table {
+        name: "t".into(),
+        cols: vec![
+            Column { name: "id".into(), ty: ColType::Int },
+            Column { name: "s".into(), ty: ColType::Str },
+            Column { name: "k".into(), ty: ColType::Int },
+        ],
+        rows,
+    }
+}
+
+/// Materialize the case under `root/<tag>/…`; `dirs` gives each file's directory.
+fn lay_out(base: &Path, dirs: &[String], files: &[SynFile], real_files: &[(String, PathBuf)], dup: Option<(&str, &[Rg])>) -> Layout {
+    let mut list = vec![];
+    let mut inv = BTreeMap::new();
+    let dir_of = |i: usize| base.join(&dirs[i]);
+    for (i, f) in files.iter().enumerate() {
+        let p = dir_of(i).join(&f.name);
+        write_footer_only(&p, &f.rgs);
+        inv.insert(p.clone(), f.rgs.clone());
+        list.push(p);
+    }
+    for (j, (name, src)) in real_files.iter().enumerate() {
+        let d = dir_of(files.len() + j);
+        std::fs::create_dir_all(&d).unwrap();
+        let p = d.join(name);
+        std::fs::copy(src, &p).unwrap();
+        inv.insert(p.clone(), read_inventory(&p));
+        list.push(p);
+    }
+    if let Some((name, rgs)) = dup {
+        let p = base.join("dup").join(name);
+        write_footer_only(&p, rgs);
+        inv.insert(p.clone(), rgs.to_vec());
+        list.push(p);
+    }
+    Layout { list, inv }
+}
+
+fn nonempty(rgs: &[Rg]) -> Vec<(usize, i64, i64)> {
+    rgs.iter().enumerate().filter(|(_, r)| r.rows > 0).map(|(i, r)| (i, r.rows, r.bytes.max(0))).collect()
+}
+
+/// Apply the one-attribute mutation; None when there is nothing it can apply to.
+fn mutate(files: &[SynFile], m: &Mutation) -> Option<(Vec<SynFile>, &'static str)> {
+    let targets: Vec<(usize, usize)> = files
+        .iter()
+        .enumerate()
+        .flat_map(|(fi, f)| f.rgs.iter().enumerate().filter(|(_, r)| r.rows > 0).map(move |(ri, _)| (fi, ri)))
+        .collect();
+    if targets.is_empty() {
+        return None;
+    }
+    let mut out = files.to_vec();
+    match m {
+        Mutation::Rename { target, front } => {
+            let (fi, _) = targets[pick_idx(*target, targets.len())];
+            // names outside the pool, so no collision; sorts before / after every pool name
+            out[fi].name = if *front { format!("!{}", out[fi].name) } else { format!("~{}", out[fi].name) };
+            Some((out, "rename"))
+        }
+        Mutation::Rows { target, delta } => {
+            let (fi, ri) = targets[pick_idx(*target, targets.len())];
+            let old = out[fi].rgs[ri].rows;
+            let new = (old + delta).max(0);
+            if new == old {
+                out[fi].rgs[ri].rows = old + 1;
+            } else {
+                out[fi].rgs[ri].rows = new;
+            }
+            Some((out, "rows"))
+        }
+        Mutation::Bytes { target, new_bytes } => {
+            let (fi, ri) = targets[pick_idx(*target, targets.len())];
+            let old = out[fi].rgs[ri].bytes;
+            out[fi].rgs[ri].bytes = if *new_bytes == old { old + 1 } else { *new_bytes };
+            Some((out, "bytes"))
+        }
+        Mutation::SplitRg { target, at } => {
+            let cands: Vec<(usize, usize)> = targets.iter().copied().filter(|(fi, ri)| files[*fi].rgs[*ri].rows >= 2).collect();
+            if cands.is_empty() {
+                return None;
+            }
+            let (fi, ri) = cands[pick_idx(*target, cands.len())];
+            let rg = out[fi].rgs[ri].clone();
+            let r1 = 1 + pick_idx(*at, (rg.rows - 1) as usize) as i64;
+            let b1 = (rg.bytes as i128 * r1 as i128 / rg.rows as i128) as i64;
+            out[fi].rgs[ri] = Rg { rows: r1, bytes: b1 };
+            out[fi].rgs.insert(ri + 1, Rg { rows: rg.rows - r1, bytes: rg.bytes - b1 });
+            Some((out, "layout_split_row_group"))
+        }
+        Mutation::InsertEmpty { target } => {
+            let (fi, ri) = targets[pick_idx(*target, targets.len())];
+            out[fi].rgs.insert(ri, Rg { rows: 0, bytes: 0 });
+            Some((out, "layout_insert_empty_row_group"))
+        }
+    }
+}
+
+pub struct Enumerate;
+impl Check for Enumerate {
+    type Case = EnumCase;
+    fn name(&self) -> &'static str {
+        "enumerate_parquet"
+    }
+    fn rule(&self) -> &'static str {
+        "the table has >=2 files and some row group was cut into >=2 splits"
+    }
+    fn cases(&self, tier: Tier) -> u32 {
+        tier.pick(1500, 40_000)
+    }
+    fn strategy(&self, tier: Tier) -> BoxedStrategy<EnumCase> {
+        case_strategy(tier)
+    }
+    fn test(&self, c: &EnumCase, obs: &mut Obs) -> Verdict {
+        if c.nodes == 0 || c.nodes > 64 {
+            return Verdict::Discard("node count outside 1..64".into());
+        }
+        {
+            let mut names: Vec<&str> = c.files.iter().map(|f| f.name.as_str()).collect();
+            names.sort();
+            if names.windows(2).any(|w| w[0] == w[1]) || names.iter().any(|n| n.starts_with("part-")) {
+                return Verdict::Discard("synthetic file names must be distinct (same-name files are the `dup` field)".into());
+            }
+        }
+        let tmp = TempDir::new("c11");
+        let root = tmp.path();
+        let table = "t";
+        obs.label(format!("class:{}", c.class));
+
+        // real files are written once, then copied into each layout
+        let mut real_files: Vec<(String, PathBuf)> = vec![];
+        if let Some(rt) = &c.real {
+            let t = real_table(rt);
+            let layout = ParquetLayout { file_cuts: rt.file_cuts.clone(), row_group_size: rt.row_group_size, stats: 1, dictionary: rt.dictionary };
+            for p in crate::data::write_parquet(&t, &root.join("real"), &layout) {
+                real_files.push((file_name(&p), p));
+            }
+            obs.label("has_real_files");
+        }
+        let dup: Option<(&str, &[Rg])> = c.dup.as_ref().map(|d| {
+            let of = pick_idx(d.of, c.files.len());
+            (c.files[of].name.as_str(), d.rgs.as_slice())
+        });
+        let dup_conflict = match (&c.dup, dup) {
+            (Some(d), Some(_)) => {
+                let of = pick_idx(d.of, c.files.len());
+                nonempty(&c.files[of].rgs) != nonempty(&d.rgs)
+            }
+            _ => false,
+        };
+        if c.dup.is_some() {
+            obs.label(if dup_conflict { "same_name_in_two_dirs:different_footers" } else { "same_name_in_two_dirs:equal_footers" });
+        }
+        let unique_names = c.dup.is_none();
+
+        // ---- layout A, list in case order
+        let n_all = c.files.len() + real_files.len();
+        let dirs_a: Vec<String> = (0..n_all).map(|i| format!("d{}", c.dirs_a.get(i).copied().unwrap_or(0))).collect();
+        // Layout B = another mount point and other directories. Two files that share a name
+        // are part of one dataset only through their relative directories, so those two keep
+        // theirs (the mount prefix still changes).
+        let dup_of = c.dup.as_ref().map(|d| pick_idx(d.of, c.files.len()));
+        let dirs_b: Vec<String> = (0..n_all)
+            .map(|i| if Some(i) == dup_of { dirs_a[i].clone() } else { format!("e{}", c.dirs_b.get(i).copied().unwrap_or(0)) })
+            .collect();
+        let a = lay_out(&root.join("A"), &dirs_a, &c.files, &real_files, dup);
+        let nfiles = a.list.len();
+        let set_a = match enumerate_parquet(table, &a.list, c.nodes) {
+            Ok(s) => s,
+            Err(e) => return Verdict::Fail(format!("enumerate_parquet failed on valid files: {}", e)),
+        };
+        let max_pieces = match validate(table, &set_a, &a.inv, unique_names) {
+            Ok(m) => m,
+            Err(e) => return Verdict::Fail(format!("nodes={} target={}: {}", c.nodes, set_a.target_split_bytes, e)),
+        };
+        let files_with_rows = a.inv.values().filter(|r| r.iter().any(|g| g.rows > 0)).count();
+        obs.nontrivial(nfiles >= 2 && max_pieces >= 2);
+        obs.label(match set_a.splits.len() {
+            0 => "splits:0",
+            1..=9 => "splits:1-9",
+            10..=99 => "splits:10-99",
+            100..=9999 => "splits:100-9999",
+            _ => "splits:10000+",
+        });
+        if max_pieces >= 2 {
+            obs.label("row_group_cut");
+        }
+        if a.inv.values().flatten().any(|g| g.rows == 0) {
+            obs.label("has_empty_row_group");
+        }
+        if files_with_rows < nfiles {
+            obs.label("has_file_without_rows");
+        }
+        obs.sample(serde_json::json!({
+            "nodes": c.nodes, "files": nfiles, "splits": set_a.splits.len(), "max_pieces": max_pieces,
+            "total_bytes": set_a.total_bytes, "target": set_a.target_split_bytes, "class": c.class,
+        }));
+
+        // determinism on identical input
+        match enumerate_parquet(table, &a.list, c.nodes) {
+            Ok(s) if same_enumeration(&s, &set_a) => {}
+            Ok(s) => return Verdict::Fail(format!("two enumerations of the same list differ: {}", describe_diff(&set_a, &s))),
+            Err(e) => return Verdict::Fail(format!("second enumeration failed: {}", e)),
+        }
+
+        // ---- permuted list
+        let perm = permutation(&c.order, nfiles);
+        let list_p: Vec<PathBuf> = perm.iter().map(|&i| a.list[i].clone()).collect();
+        let moved_order = perm.iter().enumerate().any(|(i, p)| i != *p);
+        if moved_order {
+            obs.label("list_permuted");
+        }
+        let set_p = match enumerate_parquet(table, &list_p, c.nodes) {
+            Ok(s) => s,
+            Err(e) => return Verdict::Fail(format!("enumerate_parquet failed on the permuted list: {}", e)),
+        };
+        if let Err(e) = validate(table, &set_p, &a.inv, unique_names) {
+            return Verdict::Fail(format!("(permuted list) nodes={}: {}", c.nodes, e));
+        }
+        let mut order_dependent: Option<String> = None;
+        if !same_enumeration(&set_a, &set_p) {
+            order_dependent = Some(format!(
+                "enumeration depends on the order of the file list (order {:?}): {}",
+                perm,
+                describe_diff(&set_a, &set_p)
+            ));
+        }
+
+        // ---- layout B: same names and footers under other directories, same list order
+        let b = lay_out(&root.join("B").join("mnt").join("copy"), &dirs_b, &c.files, &real_files, dup);
+        let set_b = match enumerate_parquet(table, &b.list, c.nodes) {
+            Ok(s) => s,
+            Err(e) => return Verdict::Fail(format!("enumerate_parquet failed on the moved copy: {}", e)),
+        };
+        if let Err(e) = validate(table, &set_b, &b.inv, unique_names) {
+            return Verdict::Fail(format!("(moved copy) nodes={}: {}", c.nodes, e));
+        }
+        if !same_enumeration(&set_a, &set_b) {
+            return Verdict::Fail(format!(
+                "enumeration depends on the directories the files are in: {}",
+                describe_diff(&set_a, &set_b)
+            ));
+        }
+        // moved AND permuted
+        let list_bp: Vec<PathBuf> = perm.iter().map(|&i| b.list[i].clone()).collect();
+        match enumerate_parquet(table, &list_bp, c.nodes) {
+            Ok(s) => {
+                if !same_enumeration(&set_a, &s) && order_dependent.is_none() {
+                    order_dependent = Some(format!("enumeration depends on list order + directory: {}", describe_diff(&set_a, &s)));
+                }
+            }
+            Err(e) => return Verdict::Fail(format!("enumerate_parquet failed on the moved+permuted copy: {}", e)),
+        }
+
+        if let Some(msg) = order_dependent {
+            if dup_conflict {
+                return Verdict::Known {
+                    id: KF_SAME_NAME.into(),
+                    msg: format!("two files named {:?} in different directories with different footers: {}", dup.unwrap().0, msg),
+                };
+            }
+            return Verdict::Fail(msg);
+        }
+
+        // ---- one-attribute change => different digest
+        match mutate(&c.files, &c.mutation) {
+            None => obs.label("mutation:not_applicable"),
+            Some((files_m, kind)) => {
+                let m = lay_out(&root.join("M"), &dirs_a, &files_m, &real_files, dup);
+                let set_m = match enumerate_parquet(table, &m.list, c.nodes) {
+                    Ok(s) => s,
+                    Err(e) => return Verdict::Fail(format!("enumerate_parquet failed on the mutated copy: {}", e)),
+                };
+                if let Err(e) = validate(table, &set_m, &m.inv, unique_names) {
+                    return Verdict::Fail(format!("(copy with changed {}) nodes={}: {}", kind, c.nodes, e));
+                }
+                obs.label(format!("mutation:{}", kind));
+                if seq_eq(&set_m, &set_a) {
+                    // cannot happen for these mutations while the validity predicate holds,
+                    // except when two same-name files swap roles
+                    if c.dup.is_none() {
+                        return Verdict::Fail(format!(
+                            "a copy that differs in {} enumerates to the same splits (digest cannot tell them apart)",
+                            kind
+                        ));
+                    }
+                } else if set_m.digest() == set_a.digest() {
+                    return Verdict::Fail(format!(
+                        "digest {:#x} unchanged although the copy differs in {}: {}",
+                        set_a.digest(),
+                        kind,
+                        describe_diff(&set_a, &set_m)
+                    ));
+                }
+            }
+        }
+        Verdict::Pass
+    }
+}
 
 pub fn property() -> Property {
-    Property { id: "C11", level: "exploration", assumptions: &[], checks: vec![] }
+    Property {
+        id: "C11",
+        level: "exploration",
+        assumptions: &[
+            "row counts 0..10^7 and total_byte_size 0..2^40 (non-negative); node counts 1..64",
+            "'the table's bytes' = sum of total_byte_size over non-empty row groups (an empty row group with a non-zero size may be counted or not)",
+            "digest sensitivity is asserted for changes to a file that has rows, a non-empty row group's rows/bytes, or a layout change that renumbers a non-empty row group; 64-bit hash collisions are ignored",
+            "files with equal names in different directories are generated in ~7% of cases; their order dependence is the open finding c11-same-file-name-order-dependent",
+        ],
+        checks: vec![Box::new(Enumerate)],
+    }
 }
